@@ -34,6 +34,8 @@ Covering ==
                  i \in 1..2, j \in 2..3, f \in Few \ {<< >>}, g \in Few \ {<< >>}, kd \in {"prepared", "unprepared"}} : DropSafe(s.faults)}
   \cup {Sc(<<0, 2, 0>>, [NoFaults(3) EXCEPT ![i] = f], [mode |-> "all", n |-> 0], "unprepared", 1) : i \in 1..3, f \in FaultLists \ {<< >>}}
   \cup {Sc(<<1, 1, 1>>, NoFaults(3), [mode |-> "all", n |-> 0], kd, sv) : kd \in {"prepared", "unprepared"}, sv \in 2..4}
+  \cup {Sc(p, NoFaults(Len(p)), [mode |-> "all", n |-> 0], kd, 6) : p \in {<<1, 1, 1>>, <<2, 1>>, <<0, 2, 1>>}, kd \in {"prepared", "unprepared"}}
+  \cup {Sc(<<1, 2, 1>>, [NoFaults(3) EXCEPT ![2] = <<"overloaded">>], [mode |-> "all", n |-> 0], "prepared", 6)}
   \* the server may return the same paging-state bytes with consecutive pages
   \cup {Sc(p, NoFaults(Len(p)), c, kd, 5) : p \in {<<1, 1, 1>>, <<2, 0, 1, 2>>, <<1, 2>>}, c \in {[mode |-> "all", n |-> 0], [mode |-> "drop_after", n |-> 1]}, kd \in {"prepared", "unprepared"}}
   \cup {Sc(<<1, 1, 2, 1>>, [NoFaults(4) EXCEPT ![i] = f], [mode |-> "all", n |-> 0], "prepared", 5) : i \in 2..4, f \in {<<"overloaded">>, <<"unprepared">>, <<"invalid">>}}
@@ -50,6 +52,7 @@ Init == \E s \in Scenarios : Init0(s)
 Spec == Init /\ [][Next]_vars /\ Fairness
 \* paging-state byte strings (what the server returns with page i): sv selects the flavour
 StateOf(sv, i) == CASE sv = 1 -> <<i>> [] sv = 2 -> <<255, 255, i, 0>> [] sv = 3 -> [j \in 1..64 |-> (i * 37 + j) % 256] [] sv = 4 -> <<0, i>>
+                         [] sv = 6 -> IF i = 1 THEN << >> ELSE <<i>>          \* "more pages" announced with a paging state of length zero
                     [] sv = 5 -> <<7, 7>>
 Emit == TLCGet("level") = 1 =>
   PrintT(<<"SCEN", ToJson([kind |-> sc.kind, pages |-> sc.pages, faults |-> sc.faults, consumer |-> sc.consumer,
